@@ -63,6 +63,14 @@ def program(rng, tier):
             col = rng.choice(['~', '0', str(nc - 1), str(nc), str(nc + 1), str(nc + 7), '4294967295'])
             dflt = rng.choice(['~', '~', '0', str(nc - 1)])
             lines.append('ab_fdim %d %d %s %s' % (nc, rng.choice([0, 1, 3]), col, dflt))
+    # the chunk shape guessed for a data set: every rank, extents 0 (read as 1024), 1, odd, powers of two, huge (element counts
+    # beyond 2^53 and beyond 2^64), element sizes 1..16
+    for _ in range(6):
+        rank = rng.choice([1, 1, 2, 2, 3, 4, 6])
+        pool = [0, 1, 2, 3, 7, 100, 1000, 1024, 4097, 65536, 10 ** 6, 2 ** 20 + 1, 2 ** 31, 2 ** 32, 2 ** 40, 2 ** 53 + 1, 2 ** 63, 2 ** 64 - 1]
+        dims = [rng.choice(pool if rng.random() < 0.5 else pool[:12]) for _ in range(rank)]
+        lines.append('ab_chunk %s %d' % (lst([str(x) for x in dims]), rng.choice([1, 1, 2, 4, 8, 8, 16])))
+    lines.append('ab_chunk [] 8')
     for kind in ('T', 'M'):
         for _ in range(2):
             lines.append('ab_tagidx %s %s %s' % (kind, rng.choice(['0', '1', '1', '2', '4294967296', '18446744073709551615']), rng.choice(['0', '1', '1', '2', '18446744073709551615'])))
